@@ -394,6 +394,8 @@ pub struct ROutcome {
     pub ids: Vec<u64>,
     pub expected_id: u64,
     pub stops_seen_by_quinn: Vec<u64>,
+    /// results of two more poll_data calls after the terminal answer
+    pub after_terminal: Vec<String>,
     pub panic: Option<String>,
     pub panic_state: String,
 }
@@ -518,6 +520,21 @@ pub fn r_execute(case: &RCase, explore: bool) -> ROutcome {
         set_op("recv_id");
         o.ids.push(with!(x, x.recv_id().into_inner()));
         o.terminal = terminal.unwrap();
+        // a caller that polls again after the terminal answer (a retry, a combinator polled once more)
+        if o.terminal != "pending" {
+            for _ in 0..2 {
+                let mut t: Option<String> = None;
+                let before = o.received.len();
+                poll_once(&mut s, &mut o, &mut t);
+                o.after_terminal.push(match t {
+                    Some(x) => x,
+                    None if o.received.len() > before => "data".into(),
+                    None => "pending".into(),
+                });
+                set_op("recv_id");
+                o.ids.push(with!(x, x.recv_id().into_inner()));
+            }
+        }
         o.stops_seen_by_quinn = rlog.lock().unwrap().stops.clone();
         o
     });
@@ -560,6 +577,17 @@ pub fn r_judge(case: &RCase, o: &ROutcome) -> Vec<(String, String)> {
         let codes: Vec<u64> = case.ops.iter().filter_map(|op| if let ROp::Stop(c) = op { Some(*c) } else { None }).collect();
         if o.terminal != "pending" && o.stops_seen_by_quinn.first() != codes.first() {
             out.push(("C17:read:stop_sending-code-lost".into(), format!("{ctx}: stop_sending({:x?}) called, Quinn saw stop({:x?})", codes, o.stops_seen_by_quinn)));
+        }
+    }
+    // the condition that ended the stream keeps surfacing as the same class: in particular a reset never turns
+    // into a clean end of stream on a later poll
+    if !stopped && case.end == "reset" {
+        let want = expect_read_terminal(case.end, case.code);
+        for (i, a) in o.after_terminal.iter().enumerate() {
+            if *a != want {
+                out.push((format!("C17:read:reset-forgotten-on-a-later-poll:got={a}"), format!("{ctx}: poll_data reported {want}; poll #{} after that answered {a}", i + 1)));
+                break;
+            }
         }
     }
     if o.ids.iter().any(|i| *i != o.expected_id) {
@@ -740,7 +768,7 @@ fn run(tier: Tier, seed: u64) -> i32 {
     let _ = &mut rep;
     rep.exhaustive = true;
     rep.rule = format!(
-        "the unmodified adapter source over the fakequinn stand-in. write path: frame sequences with payloads from {{0, 1, 5 bytes}} up to 3 frames, one 256 KiB frame, framed (send_data/poll_ready) and unframed (poll_send), on uni and bidi streams, an overlapping send_data inserted after every send_data, and one write fault of {{Stopped(c), ConnectionLost(ApplicationClosed(c)), ConnectionLost(TimedOut), ConnectionLost(Reset), ClosedStream, ZeroRttRejected}} from the k-th poll_write on (k = 0..4, c in {{0, 0x10c, 2^62-1}}), under EVERY poll_write answer sequence with <= {bound} deviations (accept 1 / half / n-1 bytes, Pending). read path: data of {{0, 1, 5, 40}} bytes x ending {{FIN, Reset(c), ConnectionLost(ApplicationClosed(c)), ConnectionLost(TimedOut), ConnectionLost(Reset), ClosedStream, open}} under every read_chunk answer sequence with <= {bound} deviations (chunk cuts, Pending), uni and bidi, with every operation sequence of length <= 3 over {{poll_data, recv_id, stop_sending(c)}} before the drain (identifier queries and stop_sending in every state: fresh, read pending, read completed, after FIN, after an error). Connection-level: all 8 ConnectionError variants x 3 codes on accept/open (connection and opener) and both datagram paths; close(code, reason); datagram bytes. After a failed write one more send_data/poll_ready is issued, then reset(code); after a complete write poll_finish. Oracle: bytes seen by the stand-in = reference encoding of the buffers whose write completed (a prefix on error), ids constant, no panic, error classes and codes preserved - also on the write after the failed one (a stream-scoped STOP_SENDING never becomes a connection-level error). states = distinct (case, answer sequence) outcomes; non-trivial = executions with a deviation."
+        "the unmodified adapter source over the fakequinn stand-in. write path: frame sequences with payloads from {{0, 1, 5 bytes}} up to 3 frames, one 256 KiB frame, framed (send_data/poll_ready) and unframed (poll_send), on uni and bidi streams, an overlapping send_data inserted after every send_data, and one write fault of {{Stopped(c), ConnectionLost(ApplicationClosed(c)), ConnectionLost(TimedOut), ConnectionLost(Reset), ClosedStream, ZeroRttRejected}} from the k-th poll_write on (k = 0..4, c in {{0, 0x10c, 2^62-1}}), under EVERY poll_write answer sequence with <= {bound} deviations (accept 1 / half / n-1 bytes, Pending). read path: data of {{0, 1, 5, 40}} bytes x ending {{FIN, Reset(c), ConnectionLost(ApplicationClosed(c)), ConnectionLost(TimedOut), ConnectionLost(Reset), ClosedStream, open}} under every read_chunk answer sequence with <= {bound} deviations (chunk cuts, Pending), uni and bidi, with every operation sequence of length <= 3 over {{poll_data, recv_id, stop_sending(c)}} before the drain (identifier queries and stop_sending in every state: fresh, read pending, read completed, after FIN, after an error). Connection-level: all 8 ConnectionError variants x 3 codes on accept/open (connection and opener) and both datagram paths; close(code, reason); datagram bytes. After the terminal answer of a read poll_data is called twice more (a peer's reset must not turn into a clean end of stream). After a failed write one more send_data/poll_ready is issued, then reset(code); after a complete write poll_finish. Oracle: bytes seen by the stand-in = reference encoding of the buffers whose write completed (a prefix on error), ids constant, no panic, error classes and codes preserved - also on the write after the failed one (a stream-scoped STOP_SENDING never becomes a connection-level error). states = distinct (case, answer sequence) outcomes; non-trivial = executions with a deviation."
     );
     rep.assumptions = vec![
         "fakequinn models the quinn 0.11 API subset the adapter uses; its answer alphabet is bound to real Quinn by the quinnreal conformance runs (accepted sizes and error variants observed on loopback lie inside the alphabet)".into(),
